@@ -207,6 +207,53 @@ impl<'a> Parser<'a> {
         Statement::SingleIf { condition, invert_condition, statements }
       }
       "brk" => Statement::Break(self.expr(heap)?),
+      "struct" => {
+        let n = self.next()?;
+        let n = name(heap, n);
+        let k = self.num()?;
+        let mut expression_list = Vec::new();
+        for _ in 0..k {
+          expression_list.push(self.expr(heap)?);
+        }
+        Statement::StructInit { struct_variable_name: n, type_name: TypeNameId::STR, expression_list }
+      }
+      "idx" => {
+        let n = self.next()?;
+        let n = name(heap, n);
+        let pointer_expression = self.expr(heap)?;
+        let index = self.num()?;
+        Statement::IndexedAccess { name: n, type_: INT_32_TYPE, pointer_expression, index }
+      }
+      "isp" => {
+        let n = self.next()?;
+        Statement::IsPointer { name: name(heap, n), pointer_type: TypeNameId::STR, operand: self.expr(heap)? }
+      }
+      "clo" => {
+        let n = self.next()?;
+        let n = name(heap, n);
+        let f = self.next()?;
+        let context = self.expr(heap)?;
+        Statement::ClosureInit {
+          closure_variable_name: n,
+          closure_type_name: TypeNameId::STR,
+          function_name: FunctionNameExpression {
+            name: FunctionName { type_name: TypeNameId::EMPTY, fn_name: name(heap, f) },
+            type_: Type::new_fn_unwrapped(vec![INT_32_TYPE; 2], INT_32_TYPE),
+          },
+          context,
+        }
+      }
+      "icall" => {
+        let v = self.next()?;
+        let v = VariableName { name: name(heap, v), type_: INT_32_TYPE };
+        let k = self.num()?;
+        let mut arguments = Vec::new();
+        for _ in 0..k {
+          arguments.push(self.expr(heap)?);
+        }
+        let return_collector = self.opt_name(heap)?;
+        Statement::Call { callee: Callee::Variable(v), arguments, return_type: INT_32_TYPE, return_collector }
+      }
       "while" => {
         let n = self.num()?;
         let mut loop_variables = Vec::new();
@@ -274,7 +321,12 @@ struct Machine<'a> {
   lines: Vec<String>,
   steps: u64,
   limit: u64,
+  /// heap objects (structs, closures `[function index, context]`); a pointer is `PTR_BASE + index`
+  objs: Vec<Vec<i32>>,
+  closure_fns: Vec<FunctionName>,
 }
+
+const PTR_BASE: i32 = 1_000_000_000;
 
 fn target_binary(op: B, a: i32, b: i32) -> Result<i32, Stop> {
   Ok(match op {
@@ -320,6 +372,13 @@ impl<'a> Machine<'a> {
         .copied()
         .ok_or_else(|| Stop::Bad(format!("unbound variable {}", v.name.as_str(self.heap)))),
     }
+  }
+
+  fn deref(&self, p: i32) -> Result<&Vec<i32>, Stop> {
+    if p < PTR_BASE {
+      return Err(Stop::Bad("dereference of a non-pointer".into()));
+    }
+    self.objs.get((p - PTR_BASE) as usize).ok_or_else(|| Stop::Bad("dangling pointer".into()))
   }
 
   fn tick(&mut self) -> Result<(), Stop> {
@@ -398,7 +457,17 @@ impl<'a> Machine<'a> {
         }
         let r = match callee {
           Callee::FunctionName(f) => self.call(&f.name, args, depth + 1)?,
-          Callee::Variable(_) => return Err(Stop::Bad("indirect call".into())),
+          Callee::Variable(v) => {
+            let c = self.eval(env, &Expression::Variable(*v))?;
+            let obj = self.deref(c)?.clone();
+            if obj.len() != 2 || obj[0] < 0 || obj[0] as usize >= self.closure_fns.len() {
+              return Err(Stop::Bad("call of a non-closure".into()));
+            }
+            let f = self.closure_fns[obj[0] as usize];
+            let mut full = vec![obj[1]];
+            full.extend(args);
+            self.call(&f, full, depth + 1)?
+          }
         };
         if let Some(c) = return_collector {
           env.insert(*c, r);
@@ -448,10 +517,36 @@ impl<'a> Machine<'a> {
           }
         }
       }
-      Statement::IsPointer { .. }
-      | Statement::IndexedAccess { .. }
-      | Statement::StructInit { .. }
-      | Statement::ClosureInit { .. } => return Err(Stop::Bad("unsupported statement".into())),
+      Statement::IsPointer { name, pointer_type: _, operand } => {
+        let v = self.eval(env, operand)?;
+        env.insert(*name, (v >= PTR_BASE) as i32);
+      }
+      Statement::IndexedAccess { name, type_: _, pointer_expression, index } => {
+        let p = self.eval(env, pointer_expression)?;
+        let obj = self.deref(p)?;
+        let v = *obj.get(*index).ok_or_else(|| Stop::Bad("field index out of range".into()))?;
+        env.insert(*name, v);
+      }
+      Statement::StructInit { struct_variable_name, type_name: _, expression_list } => {
+        let mut fields = Vec::new();
+        for e in expression_list {
+          fields.push(self.eval(env, e)?);
+        }
+        self.objs.push(fields);
+        env.insert(*struct_variable_name, PTR_BASE + (self.objs.len() as i32 - 1));
+      }
+      Statement::ClosureInit { closure_variable_name, closure_type_name: _, function_name, context } => {
+        let c = self.eval(env, context)?;
+        let idx = match self.closure_fns.iter().position(|f| *f == function_name.name) {
+          Some(i) => i,
+          None => {
+            self.closure_fns.push(function_name.name);
+            self.closure_fns.len() - 1
+          }
+        };
+        self.objs.push(vec![idx as i32, c]);
+        env.insert(*closure_variable_name, PTR_BASE + (self.objs.len() as i32 - 1));
+      }
     }
     Ok(Flow::Next)
   }
@@ -482,7 +577,7 @@ fn run_main(heap: &Heap, functions: &[Function], args: &[i32], limit: u64) -> Ou
 }
 
 fn run_entry(heap: &Heap, functions: &[Function], args: &[i32], limit: u64, entry: &str) -> Outcome {
-  let mut m = Machine { heap, functions, lines: Vec::new(), steps: 0, limit };
+  let mut m = Machine { heap, functions, lines: Vec::new(), steps: 0, limit, objs: Vec::new(), closure_fns: Vec::new() };
   let main = functions.iter().find(|f| f.name.fn_name.as_str(heap) == entry);
   let end = match main {
     None => Err(Stop::Bad(format!("entry function {entry} disappeared"))),
@@ -939,7 +1034,7 @@ fn run_loop_text(text: &str, optimised: bool, fuel: u64) -> String {
     before
   };
   // `fuel` = number of guard evaluations allowed, as in the model
-  let mut m = Machine { heap: &heap, functions: &prog, lines: Vec::new(), steps: 0, limit: u64::MAX };
+  let mut m = Machine { heap: &heap, functions: &prog, lines: Vec::new(), steps: 0, limit: u64::MAX, objs: Vec::new(), closure_fns: Vec::new() };
   let f = &prog[0];
   let mut env: HashMap<PStr, i32> = HashMap::new();
   // run prefix statements, then the loop with an iteration bound
@@ -1101,6 +1196,140 @@ fn straight_line(heap: &mut Heap, t: &[&str]) -> Option<Vec<Statement>> {
       i += 2;
     } else {
       return None;
+    }
+  }
+  Some(body)
+}
+
+/// every statement kind LICM dispatches on (token language of the `licmk` protocol)
+fn all_kinds(heap: &mut Heap, t: &[&str]) -> Option<Vec<Statement>> {
+  let mut body = Vec::new();
+  let mut i = 0;
+  let var_name = |heap: &mut Heap, s: &str| -> Option<PStr> { Some(expr_of(heap, s)?.as_variable()?.name) };
+  while i < t.len() {
+    match t[i] {
+      "b" => {
+        let n = var_name(heap, t.get(i + 1)?)?;
+        let o = op_of(t.get(i + 2)?)?;
+        let a = expr_of(heap, t.get(i + 3)?)?;
+        let b = expr_of(heap, t.get(i + 4)?)?;
+        body.push(Statement::Binary(Binary { name: n, operator: o, e1: a, e2: b }));
+        i += 5;
+      }
+      "ip" | "nt" | "cs" | "cl" | "la" => {
+        let n = var_name(heap, t.get(i + 1)?)?;
+        let a = expr_of(heap, t.get(i + 2)?)?;
+        body.push(match t[i] {
+          "ip" => Statement::IsPointer { name: n, pointer_type: TypeNameId::STR, operand: a },
+          "nt" => Statement::Not { name: n, operand: a },
+          "cs" => Statement::Cast { name: n, type_: INT_32_TYPE, assigned_expression: a },
+          "la" => Statement::LateInitAssignment { name: n, assigned_expression: a },
+          _ => Statement::ClosureInit {
+            closure_variable_name: n,
+            closure_type_name: TypeNameId::STR,
+            function_name: FunctionNameExpression {
+              name: FunctionName { type_name: TypeNameId::EMPTY, fn_name: name(heap, "g") },
+              type_: Type::new_fn_unwrapped(vec![INT_32_TYPE], INT_32_TYPE),
+            },
+            context: a,
+          },
+        });
+        i += 3;
+      }
+      "ix" => {
+        let n = var_name(heap, t.get(i + 1)?)?;
+        let a = expr_of(heap, t.get(i + 2)?)?;
+        let index: usize = t.get(i + 3)?.parse().ok()?;
+        body.push(Statement::IndexedAccess { name: n, type_: INT_32_TYPE, pointer_expression: a, index });
+        i += 4;
+      }
+      "st" => {
+        let n = var_name(heap, t.get(i + 1)?)?;
+        let k: usize = t.get(i + 2)?.parse().ok()?;
+        let mut es = Vec::new();
+        for j in 0..k {
+          es.push(expr_of(heap, t.get(i + 3 + j)?)?);
+        }
+        body.push(Statement::StructInit { struct_variable_name: n, type_name: TypeNameId::STR, expression_list: es });
+        i += 3 + k;
+      }
+      "ld" => {
+        let n = var_name(heap, t.get(i + 1)?)?;
+        body.push(Statement::LateInitDeclaration { name: n, type_: INT_32_TYPE });
+        i += 2;
+      }
+      "cr" => {
+        let c = if *t.get(i + 1)? == "_" { None } else { Some(var_name(heap, t[i + 1])?) };
+        let k: usize = t.get(i + 2)?.parse().ok()?;
+        let mut es = Vec::new();
+        for j in 0..k {
+          es.push(expr_of(heap, t.get(i + 3 + j)?)?);
+        }
+        body.push(Statement::Call {
+          callee: Callee::FunctionName(FunctionNameExpression {
+            name: FunctionName { type_name: TypeNameId::EMPTY, fn_name: name(heap, "h") },
+            type_: Type::new_fn_unwrapped(vec![INT_32_TYPE; k], INT_32_TYPE),
+          }),
+          arguments: es,
+          return_type: INT_32_TYPE,
+          return_collector: c,
+        });
+        i += 3 + k;
+      }
+      "p" | "k" => {
+        let a = expr_of(heap, t.get(i + 1)?)?;
+        if t[i] == "k" {
+          body.push(Statement::Break(a));
+        } else {
+          body.push(Statement::Call {
+            callee: Callee::FunctionName(FunctionNameExpression {
+              name: FunctionName { type_name: TypeNameId::EMPTY, fn_name: name(heap, "print") },
+              type_: Type::new_fn_unwrapped(vec![INT_32_TYPE], INT_32_TYPE),
+            }),
+            arguments: vec![a],
+            return_type: INT_32_TYPE,
+            return_collector: None,
+          });
+        }
+        i += 2;
+      }
+      "wh" => {
+        let n = var_name(heap, t.get(i + 1)?)?;
+        body.push(Statement::While {
+          loop_variables: Vec::new(),
+          statements: vec![Statement::Break(Expression::i32(1))],
+          break_collector: Some(VariableName { name: n, type_: INT_32_TYPE }),
+        });
+        i += 2;
+      }
+      "if" => {
+        let k: usize = t.get(i + 1)?.parse().ok()?;
+        let mut fas = Vec::new();
+        for j in 0..k {
+          fas.push(IfElseFinalAssignment {
+            name: var_name(heap, t.get(i + 2 + j)?)?,
+            type_: INT_32_TYPE,
+            e1: Expression::i32(1),
+            e2: Expression::i32(2),
+          });
+        }
+        body.push(Statement::IfElse {
+          condition: Expression::var_name(name(heap, "v01"), INT_32_TYPE),
+          s1: Vec::new(),
+          s2: Vec::new(),
+          final_assignments: fas,
+        });
+        i += 2 + k;
+      }
+      "sf" => {
+        body.push(Statement::SingleIf {
+          condition: Expression::var_name(name(heap, "v01"), INT_32_TYPE),
+          invert_condition: false,
+          statements: vec![Statement::Break(Expression::i32(0))],
+        });
+        i += 1;
+      }
+      _ => return None,
     }
   }
   Some(body)
@@ -1298,6 +1527,52 @@ fn kernel_line(t: &[&str]) -> String {
         .collect::<Vec<_>>()
         .join(" ")
     }
+    "csek" => {
+      // like `cse`, over every value kind CSE tracks (Binary, IndexedAccess, IsPointer, Not)
+      let mut heap = Heap::new();
+      let slash = match t.iter().position(|x| *x == "/") {
+        Some(i) => i,
+        None => return "bad-line".to_string(),
+      };
+      let (s1, s2) = match (all_kinds(&mut heap, &t[1..slash]), all_kinds(&mut heap, &t[slash + 1..])) {
+        (Some(a), Some(b)) => (a, b),
+        _ => return "bad-line".to_string(),
+      };
+      let v0 = name(&mut heap, "v00");
+      let mut f = Function {
+        name: FunctionName { type_name: TypeNameId::EMPTY, fn_name: name(&mut heap, "f0") },
+        parameters: vec![v0, name(&mut heap, "v01")],
+        type_: Type::new_fn_unwrapped(vec![INT_32_TYPE; 2], INT_32_TYPE),
+        body: vec![Statement::IfElse {
+          condition: Expression::var_name(v0, INT_32_TYPE),
+          s1,
+          s2,
+          final_assignments: Vec::new(),
+        }],
+        return_value: Expression::i32(0),
+      };
+      let counter = heap.create_temp_counter();
+      verif_hooks::run_pass("cse", &mut f, &counter, &config(31));
+      let mut hoisted: Vec<String> = f
+        .body
+        .iter()
+        .take_while(|s| s.as_if_else().is_none())
+        .filter_map(|s| match s {
+          Statement::Binary(b) => {
+            Some(format!("{}:{}:{}", op_name(b.operator), show_expr(&heap, &b.e1), show_expr(&heap, &b.e2)))
+          }
+          Statement::IndexedAccess { pointer_expression, index, .. } => {
+            Some(format!("ix:{}:{}", show_expr(&heap, pointer_expression), index))
+          }
+          Statement::IsPointer { operand, .. } => Some(format!("ip:{}", show_expr(&heap, operand))),
+          Statement::Not { operand, .. } => Some(format!("nt:{}", show_expr(&heap, operand))),
+          _ => Some("?".to_string()),
+        })
+        .collect();
+      hoisted.sort();
+      hoisted.dedup();
+      format!("hoisted {}", if hoisted.is_empty() { "-".to_string() } else { hoisted.join(",") })
+    }
     "cse" => {
       // `cse <block1> / <block2>`: real common_subexpression_elimination on `if v00 {block1} {block2}`
       let mut heap = Heap::new();
@@ -1352,10 +1627,53 @@ fn kernel_line(t: &[&str]) -> String {
         "fn f0 2 while 3 i 0 ni last 0 j acc 0 nacc {{ bin cc ge i 5 sif cc 0 {{ brk acc }} {print}while {nlv} k {kinit} nk s 0 ns{extra_lv} {{ bin c2 ge k {ibound} sif c2 0 {{ brk {brk} }} bin ns add s {addend} bin nk add k 1 }} r2 bin t add acc last bin nacc add t r2 bin j mul i 3 bin ni add i 1 }} r ret r end"
       );
       let mut heap = Heap::new();
-      let before = match parse_program(&mut heap, &text) {
+      let mut before = match parse_program(&mut heap, &text) {
         Ok(f) => f,
         Err(e) => return format!("bad-program {e}"),
       };
+      // statement kinds the text format does not have: the counter is read by an IsPointer / Not /
+      // IndexedAccess / Cast / LateInitAssignment / StructInit / ClosureInit whose result is printed (live)
+      let extra: Option<&str> = match pos {
+        "ip" => Some("ip v50 v77 p v50"),
+        "nt" => Some("nt v50 v77 p v50"),
+        "ix" => Some("ix v50 v77 0 p v50"),
+        "cs" => Some("cs v50 v77 p v50"),
+        "la" => Some("ld v50 la v50 v77 p v50"),
+        "st" => Some("st v50 2 i1 v77 p v50"),
+        "cl" => Some("cl v50 v77 p v50"),
+        _ => None,
+      };
+      if let Some(toks) = extra {
+        let toks: Vec<&str> = toks.split(' ').collect();
+        let mut stmts = all_kinds(&mut heap, &toks).expect("well-formed");
+        // v77 stands for the counter `i`
+        let i_name = name(&mut heap, "i");
+        let v77 = name(&mut heap, "v77");
+        let fix = |e: &mut Expression| {
+          if let Expression::Variable(v) = e {
+            if v.name == v77 {
+              v.name = i_name;
+            }
+          }
+        };
+        for s in stmts.iter_mut() {
+          match s {
+            Statement::IsPointer { operand, .. } | Statement::Not { operand, .. } => fix(operand),
+            Statement::IndexedAccess { pointer_expression, .. } => fix(pointer_expression),
+            Statement::Cast { assigned_expression, .. } | Statement::LateInitAssignment { assigned_expression, .. } => {
+              fix(assigned_expression)
+            }
+            Statement::StructInit { expression_list, .. } => expression_list.iter_mut().for_each(fix),
+            Statement::ClosureInit { context, .. } => fix(context),
+            _ => {}
+          }
+        }
+        if let Statement::While { statements, .. } = &mut before[0].body[0] {
+          for (k, s) in stmts.into_iter().enumerate() {
+            statements.insert(2 + k, s);
+          }
+        }
+      }
       let after = match apply_pass(&mut heap, &before, "loop", 31) {
         Ok(f) => f,
         Err(_) => return "panic".to_string(),
@@ -1429,6 +1747,58 @@ fn kernel_line(t: &[&str]) -> String {
         }
         _ => "unexpected-shape".to_string(),
       }
+    }
+    "licmk" => {
+      // loop body over every statement kind; answer: names of the statements placed before the loop
+      let mut heap = Heap::new();
+      let mut body = match all_kinds(&mut heap, &t[1..]) {
+        Some(b) => b,
+        None => return "bad-line".to_string(),
+      };
+      let (v0, v99) = (name(&mut heap, "v00"), name(&mut heap, "v99"));
+      body.push(Statement::Binary(Binary {
+        name: v99,
+        operator: B::PLUS,
+        e1: Expression::var_name(v0, INT_32_TYPE),
+        e2: Expression::i32(1),
+      }));
+      let mut f = Function {
+        name: FunctionName { type_name: TypeNameId::EMPTY, fn_name: name(&mut heap, "f0") },
+        parameters: vec![name(&mut heap, "v01")],
+        type_: Type::new_fn_unwrapped(vec![INT_32_TYPE; 1], INT_32_TYPE),
+        body: vec![Statement::While {
+          loop_variables: vec![GenenalLoopVariable {
+            name: v0,
+            type_: INT_32_TYPE,
+            initial_value: Expression::i32(0),
+            loop_value: Expression::var_name(v99, INT_32_TYPE),
+          }],
+          statements: body,
+          break_collector: None,
+        }],
+        return_value: Expression::i32(0),
+      };
+      let counter = heap.create_temp_counter();
+      verif_hooks::run_pass("loop", &mut f, &counter, &config(31));
+      let hoisted: Vec<String> = f
+        .body
+        .iter()
+        .take_while(|s| s.as_while().is_none())
+        .filter_map(|s| match s {
+          Statement::Binary(b) => Some(b.name),
+          Statement::IsPointer { name, .. }
+          | Statement::Not { name, .. }
+          | Statement::IndexedAccess { name, .. }
+          | Statement::Cast { name, .. }
+          | Statement::LateInitDeclaration { name, .. }
+          | Statement::LateInitAssignment { name, .. } => Some(*name),
+          Statement::StructInit { struct_variable_name, .. } => Some(*struct_variable_name),
+          Statement::ClosureInit { closure_variable_name, .. } => Some(*closure_variable_name),
+          _ => Some(PStr::INVALID_PSTR),
+        })
+        .map(|n| if n == PStr::INVALID_PSTR { "?".to_string() } else { n.as_str(&heap).to_string() })
+        .collect();
+      format!("hoisted {}", if hoisted.is_empty() { "-".to_string() } else { hoisted.join(",") })
     }
     "licm" => {
       // the block is the body of `while (v00 = 0) { …; v99 = v00 + 1 }` (v01 is a parameter)
